@@ -261,6 +261,9 @@ func Reach(from Point, target func(ssa.Instruction) bool, cut *Cut) (ssa.Instruc
 			if cut != nil && cut.Edges[Edge{it.p.B, si}] {
 				continue
 			}
+			if infeasibleEdge(it.p.B, si) {
+				continue
+			}
 			if visited[s] {
 				continue
 			}
@@ -655,4 +658,21 @@ func GlobalOf(v ssa.Value) *ssa.Global {
 		}
 	}
 	return nil
+}
+
+// infeasibleEdge: successor si of a block ending in `if <constant>` that the constant excludes
+// (go/ssa keeps `for true {}` as `if true goto body else done`).
+func infeasibleEdge(b *ssa.BasicBlock, si int) bool {
+	ifi, ok := b.Instrs[len(b.Instrs)-1].(*ssa.If)
+	if !ok {
+		return false
+	}
+	c, ok := ifi.Cond.(*ssa.Const)
+	if !ok || c.Value == nil || c.Value.Kind() != constant.Bool {
+		return false
+	}
+	if constant.BoolVal(c.Value) {
+		return si == 1
+	}
+	return si == 0
 }
